@@ -68,6 +68,41 @@ def _calls_on(ctx, f, attr, method):
     return out
 
 
+def one_critical_section(ctx, R, roles, li, rule):
+    """Closing the old connection, clearing the store, connecting the transport and the whole handshake are ONE critical section of the
+    transport lock: a thread waiting for that lock (a reader of the old session, a sender) cannot get in between and talk to the new
+    connection before the CNXN, or park a packet after the clearing."""
+    f = roles.io_connect
+    g = ctx.cfg(f)
+    tl = (roles.io_cls.qualname, "_transport_lock")
+
+    def section(n):
+        for w in n.withs:
+            if li.lock_of_with(f, w) == tl:
+                return w
+        return None
+    steps = []
+    for attr, meth in (("_transport", "close"), ("_packet_store", "clear_all"), ("_transport", "connect")):
+        steps += [(n, "%s.%s" % (attr, meth)) for n in _calls_on(ctx, f, attr, meth)]
+    conns = _calls_on(ctx, f, "_transport", "connect")
+    for n in g.live_nodes():
+        for c in node_calls(n):
+            cs = ctx.cg.site(c)
+            if cs is not None and (roles.send_primitive in cs.callees or roles.connect_reader in cs.callees):
+                steps.append((n, "handshake I/O"))
+    # the closing of the transport on the failure paths of the handshake happens later, in the same section or not at all: only the steps up to
+    # the first handshake I/O and the I/O itself are constrained
+    secs = set()
+    for n, what in steps:
+        if what == "_transport.close" and conns and not g.dominates([n], conns[0]):
+            continue
+        secs.add(section(n))
+    ok = len(secs) == 1 and None not in secs
+    R.check(ok, rule, f.qualname + "|one-critical-section", "reset, transport.connect and the handshake form one critical section of the transport lock",
+            "closing / clearing / connecting and the handshake are not one critical section of the transport lock (%s): a thread waiting for the lock gets in between and uses the new connection before the CNXN"
+            % ("some step holds no transport lock" if None in secs else "%d separate `with` blocks" % len(secs)), f.loc())
+
+
 def _reset_before_connect(ctx, R, roles, li=None):
     f = roles.io_connect
     g = ctx.cfg(f)
@@ -90,6 +125,8 @@ def _reset_before_connect(ctx, R, roles, li=None):
             for cn in _calls_on(ctx, fx, "_packet_store", "clear_all"):
                 R.check(tl in li.held(fx, cn), "DOM-reset", "%s|clear-under-transport-lock" % fx.qualname, "the store is cleared while the transport lock is held",
                         "the packet store is cleared without holding the transport lock: a reader still inside a transport read can park a packet of the old session after the clearing", fx.loc(cn.ast))
+    if li is not None:
+        one_critical_section(ctx, R, roles, li, "DOM-reset")
     # nothing is sent/read before the reset
     sends = [n for n in g.live_nodes() if any((ctx.cg.site(c) is not None and (roles.send_primitive in ctx.cg.site(c).callees or roles.connect_reader in ctx.cg.site(c).callees)) for c in node_calls(n))]
     for s in sends:
